@@ -22,11 +22,11 @@ ID = "C03"
 LEVEL = "model_checking"
 TECHNIQUE = "stateless schedule exploration (choice-sequence DFS, iterative deviation bounding, prefix replay) of the real run_map/run_map_async through a controllable Executor and a virtual event loop"
 RULE = ("pipelines {two mapped functions + reduction, 2-D map -> partial reduction -> full reduction, tuple-output map -> zip consumer, generator -> outer "
-        "product, internal-axis-first -> reduction; plus (single executor, B=1, sequential/thread real pools only) a map whose every element is None -> element-wise consumer} x storage {file_array, dict, shared_memory_dict, per-output mixes} x executor assignment {one, per-output "
+        "product, internal-axis-first -> reduction; plus (single executor, B=1, sequential/thread real pools only) a map whose every element is None -> element-wise consumer; custom picker / 1-tuple / list-valued reducers; a pipeline under a scope s with two functions without MapSpec side by side} x storage {file_array, dict, shared_memory_dict, per-output mixes} x executor assignment {one, per-output "
         "dict, default-only dict, partial dict} x {map, map_async}; for each configuration every schedule with <= B deviations (deviation = not letting the "
-        "caller continue after a submit / not running the oldest pending task when one must run). Plus the same configurations on real Thread/Process pools "
+        "caller continue after a submit / not running the oldest pending task when one must run). Task-splitting: the tasks of a generation as logical threads preempted (<= B times) at user-function entry / argument selection / storage dump; storage-lines: the same with a preemption point at EVERY source line of pipefunc/map/_storage_array/ executed by a task, where every departure from the default successor thread counts as a deviation (file_array, dict; thorough also shared_memory_dict, and B=2 for dict storage and two file_array pipelines). Plus the same configurations on real Thread/Process pools "
         "(one free-running schedule each, not claimed as schedule coverage)")
-ASSUMPTIONS = ["a submitted task is atomic in the deferred executor; in task-splitting mode tasks are logical threads with scheduling points at user-function entry and storage dump only", "reference = MapSpec denotation of vmc/gen_map.py",
+ASSUMPTIONS = ["a submitted task is atomic in the deferred executor; in task-splitting mode tasks are logical threads with scheduling points at user-function entry and storage dump only; in storage-lines mode additionally at every source line executed inside pipefunc/map/_storage_array/ (a line is atomic)", "reference = MapSpec denotation of vmc/gen_map.py",
                "real pools contribute one OS-chosen schedule per configuration"]
 BUDGET = {"quick": 80.0, "thorough": 900.0}
 
@@ -65,6 +65,11 @@ EXTRA_PIPES["one-tuple-reducer"] = {"roots": {"x": ["i"]}, "sizes": S2, "funcs":
 # a function without MapSpec whose single output is a Python list, consumed whole by a mapped function's sibling
 EXTRA_PIPES["list-valued-output"] = {"roots": {"x": ["i"]}, "sizes": S2, "funcs": [
     {**_f("f", ["x"], None, [], [], ["a"]), "list_out": 3}, _f("g", ["x", "a"], {"x": ["i"]}, ["i"], [], ["c"])]}
+# every name carries the scope "s" (update_scope on the built pipeline): a mapped function, then two functions WITHOUT MapSpec whose
+# outputs s.a / s.b live side by side in the run folder, then a consumer of both
+EXTRA_PIPES["scoped-unmapped-siblings"] = {"scope": "s", "roots": {"x": ["i"]}, "sizes": S2, "funcs": [
+    _f("f", ["x"], {"x": ["i"]}, ["i"], [], ["y"]), _f("g", ["y"], None, [], [], ["a"]), _f("h", ["y"], None, [], [], ["b"]),
+    _f("k", ["a", "b"], None, [], [], ["c"])]}
 EXTRA = set(EXTRA_PIPES)
 ALL_PIPES = {**PIPES, **EXTRA_PIPES}
 
@@ -129,6 +134,18 @@ def _install_select_point():
     r._select_kwargs_and_eval_resources = wrapped
 
 
+def _nm(spec, name):
+    return f"{spec['scope']}.{name}" if spec.get("scope") else name
+
+
+def _scoped(spec, p, inputs):
+    """apply the spec's scope (if any) to the built pipeline and the inputs"""
+    if spec.get("scope"):
+        p.update_scope(spec["scope"], inputs="*", outputs="*")
+        return {_nm(spec, k): v for k, v in inputs.items()}
+    return inputs
+
+
 def storage_arg(st):
     if isinstance(st, str):
         return st
@@ -173,12 +190,14 @@ def execute(cfg, chooser):  # noqa: C901, PLR0912
     inputs = gen_map.make_inputs(spec, "list")
     s = sched.Sched(chooser, eager_loop=bool(cfg.get("eager_loop", False)))
     baton = None
-    if cfg["exec"] == "baton":
+    if cfg["exec"] in ("baton", "baton-lines"):
         # task-splitting mode: the tasks of a generation are logical threads that interleave at user-function entry and at
         # storage dumps, so tasks overlap and start order differs from completion order
         from .. import threads
         _install_select_point()
-        baton = threads.BatonExecutor(chooser)
+        # "baton-lines": additionally EVERY source line a task executes inside pipefunc/map/_storage_array/ is a scheduling
+        # point, so state that the storage objects share between tasks without any lock is interleaved too
+        baton = threads.BatonExecutor(chooser, trace_files=("pipefunc/map/_storage_array/",) if cfg["exec"] == "baton-lines" else ())
         ex, expected_ex = baton, {}
     else:
         ex, expected_ex = make_executors(spec, cfg["exec"], s)
@@ -202,6 +221,7 @@ def execute(cfg, chooser):  # noqa: C901, PLR0912
             def hook(name, kw_):
                 _thr.point(("enter", name))
         p = gen_map.build(spec, hook=hook)
+        inputs = _scoped(spec, p, inputs)
         kw = dict(run_folder=folder, internal_shapes=gen_map.internal_shapes_arg(spec), executor=ex, storage=storage_arg(cfg["storage"]))
         try:
             with contextlib.redirect_stdout(io.StringIO()), warnings.catch_warnings():
@@ -222,7 +242,7 @@ def execute(cfg, chooser):  # noqa: C901, PLR0912
             obs["exc"] = findings.exc_sig(e)
             obs["detail"] = f"{type(e).__name__}: {str(e)[:150]}"
             return obs
-        obs["outputs"] = {o: (terms.T(r[o].output), tuple(np.shape(r[o].output))) for f in spec["funcs"] for o in f["outs"]}
+        obs["outputs"] = {o: (terms.T(r[_nm(spec, o)].output), tuple(np.shape(r[_nm(spec, o)].output))) for f in spec["funcs"] for o in f["outs"]}
         obs["log"] = sorted(terms.LOG)
         obs["order"] = tuple(n for n, _ in terms.LOG)
         obs["leftover"] = len(s.pending)
@@ -233,7 +253,7 @@ def execute(cfg, chooser):  # noqa: C901, PLR0912
         obs["used_ex"] = {str(k): sorted(v) for k, v in used_ex.items()}
         obs["expected_ex"] = {str(k): v for k, v in expected_ex.items()}
         # dumps: every element of every StorageBase exactly once
-        stores = {o: r[o].store for f in spec["funcs"] for o in f["outs"] if isinstance(r[o].store, StorageBase)}
+        stores = {o: r[_nm(spec, o)].store for f in spec["funcs"] for o in f["outs"] if isinstance(r[_nm(spec, o)].store, StorageBase)}
         cnt = {}
         for sid, key in _DUMPS:
             cnt[(sid, key)] = cnt.get((sid, key), 0) + 1
@@ -247,7 +267,7 @@ def execute(cfg, chooser):  # noqa: C901, PLR0912
                 for o in f["outs"]:
                     try:
                         with contextlib.redirect_stdout(io.StringIO()):
-                            stored[o] = terms.T(load_outputs(o, run_folder=folder))
+                            stored[o] = terms.T(load_outputs(_nm(spec, o), run_folder=folder))
                     except Exception as e:  # noqa: BLE001
                         stored[o] = f"EXC {type(e).__name__}"
             obs["stored"] = stored
@@ -341,6 +361,7 @@ def run_real(cfg):
             if (delay == "first-slow" and counter[name] == 1) or (delay == "later-slow" and counter[name] > 1):
                 _t.sleep(0.03)
         p = gen_map.build(spec, hook=hook if delay else None)
+        inputs = _scoped(spec, p, inputs)
         kind = cfg["pool"]
         if kind == "thread":
             pool = cf.ThreadPoolExecutor(3)
@@ -362,7 +383,7 @@ def run_real(cfg):
             obs["exc"] = findings.exc_sig(e)
             obs["detail"] = f"{type(e).__name__}: {str(e)[:150]}"
             return obs
-        obs["outputs"] = {o: (terms.T(r[o].output), tuple(np.shape(r[o].output))) for f in spec["funcs"] for o in f["outs"]}
+        obs["outputs"] = {o: (terms.T(r[_nm(spec, o)].output), tuple(np.shape(r[_nm(spec, o)].output))) for f in spec["funcs"] for o in f["outs"]}
         obs["log"] = sorted((n, a) for n, a, _pid in terms.read_log_file(logf))
         obs["order"] = ()
         obs["leftover"] = 0
@@ -373,7 +394,7 @@ def run_real(cfg):
             for o in f["outs"]:
                 try:
                     with contextlib.redirect_stdout(io.StringIO()):
-                        stored[o] = terms.T(load_outputs(o, run_folder=run))
+                        stored[o] = terms.T(load_outputs(_nm(spec, o), run_folder=run))
                 except Exception as e:  # noqa: BLE001
                     stored[o] = f"EXC {type(e).__name__}"
         obs["stored"] = stored
@@ -389,6 +410,8 @@ def run_real(cfg):
 def storages(spec, tier):
     names = [",".join(f["outs"]) for f in spec["funcs"]]
     st = ["file_array", "dict", "shared_memory_dict"]
+    if spec.get("scope"):
+        return st
     st.append({names[0]: "file_array", "": "dict"})
     st.append({names[0]: "dict", "": "file_array"})
     if tier == "thorough":
@@ -433,13 +456,25 @@ def _core(cfg):
 
 # (stage bound, which configurations): bounds are iterated upwards, simplest first; a stage explores ALL schedules with
 # at most that many deviations of each of its configurations
-STAGES = {"quick": [(1, "all"), (2, "core"), (1, "task-splitting")], "thorough": [(1, "all"), (2, "all"), (1, "eager-loop"), (2, "task-splitting"), (3, "core"), (2, "eager-loop-core"), (4, "core-sync-dict")]}
+STAGES = {"quick": [(1, "all"), (2, "core"), (1, "task-splitting"), (1, "storage-lines")],
+          "thorough": [(1, "all"), (2, "all"), (1, "eager-loop"), (2, "task-splitting"), (1, "storage-lines"), (2, "storage-lines-small"), (3, "core"), (2, "eager-loop-core"), (4, "core-sync-dict")]}
 
 
 def plan(tier, seed):
     units = []
     cfgs = configs(tier)
     for b, which in STAGES[tier]:
+        if which.startswith("storage-lines"):
+            # tasks as logical threads that can be preempted at EVERY source line of the storage-array code (unsynchronised
+            # state shared by the tasks of one process: read caches, masks, counters)
+            for pipe in PIPES:
+                for st in ("file_array", "dict") + (("shared_memory_dict",) if tier == "thorough" and b == 1 else ()):
+                    if which.endswith("small") and not (st == "dict" or pipe in ("generator-outer", "tuple-zip")):
+                        continue
+                    ns = (3 if st != "dict" else 1) * (1 if b == 1 else 16)
+                    for k in range(ns):
+                        units.append((f"storage-code-line-preemptions<={b}", ("dfs", {"pipe": pipe, "storage": st, "exec": "baton-lines", "entry": "sync"}, b, (k, ns))))
+            continue
         if which == "task-splitting":
             for pipe, spec in PIPES.items():
                 if pipe in EXTRA:
